@@ -694,6 +694,22 @@ CHECKS["C14"] = Spec(
          "no Close error; non-trivial = a resize/remove/clear while a handle is lent after >= 3 operations; distinct by sequence text",
     extra=_fc_check,
 )
+CHECKS["C07"] = Spec(
+    prop_file="C07.v",
+    weights=dict(put=36, get=4, remove=14, flush=14, atflush=3, igc=9, pgc=9, reopen=5, rebits=1),
+    gen_kw=dict(pmax_choices=(1, 60, 100, 300), imax_choices=(1, 40, 64, 100, 150, 300), imm_p=0.1),
+    variants=[(0.3, dict(weights=dict(put=30, remove=8, flush=30, igc=22, get=4, pgc=4, reopen=3),
+                         gen_kw=dict(imax_choices=(52, 64, 76, 100, 150), pmax_choices=(300, 1 << 30), first=(3, 4, 5, 6, 7, 8), nops=(30, 80)))),
+              (0.15, dict(weights=dict(put=40, remove=14, flush=12, pgc=6, pgcb=8, igcb=6, igc=3, reopen=3)))],
+    keep=("res", "tbl", "img"),
+    aspects=("map", "fsck", "dir", "rl"),
+    nontrivial=lambda t, r: _count_ops(t, ("flush",)) >= 2 and _count_ops(t, ("pgc", "igc", "pgcb", "igcb")) >= 1 and _count_ops(t, ("put",)) >= 4,
+    rule=_KEYS_RULE + "flushes, both collectors (also budget-interrupted), reopen, writers slipping into a Flush; after every Flush, every GC cycle and every reopen an independent reader "
+         "of the formats (harness/fsck) checks on the REAL files against the live bucket table: every file is a chain of records; every non-empty bucket points at a complete, non-deleted "
+         "record list tagged with it in an existing file >= FirstFile; entries sorted, prefix-free, distinct locations; every entry names a complete, non-deleted primary record of the right size "
+         "whose key carries the bucket bits and the stored prefix, in a file >= FirstFile; no such location is on the freelist; byte images and tables are also compared with the model; "
+         "non-trivial = >= 2 flushes, >= 1 GC cycle, >= 4 puts",
+)
 CHECKS["C13"] = Spec(
     prop_file="C13.v",
     weights=dict(put=40, get=4, remove=16, flush=12, atflush=4, pgc=9, pgcb=0, igc=2, reopen=4),
@@ -784,6 +800,10 @@ def eval_oracle(hist_text, recs, aspects=("map",)):
         bad = o.expect(r)
         if bad:
             return (r["i"], bad)
+        for kk in ("fsck", "fsck_after_gc"):
+            fs_ = (r.get("extra") or {}).get(kk)
+            if fs_ and "fsck" in aspects:
+                return (r["i"], "C07 on the real files (%s): %s" % ("after Flush/Close/reopen" if kk == "fsck" else "after a GC cycle", fs_))
         rl = (r.get("extra") or {}).get("rl_check")
         if rl and "rl" in aspects:
             return (r["i"], "C08/C07 on the real index bytes: " + rl)
